@@ -144,20 +144,19 @@ def _is_ms(t, tparam, default):
         b2_ = ("call", "builtins.int", (("op", "*", ("c", 1000), default),), ())
         alts = set(t[1])
         return len(alts) == 2 and bool(alts & {a_, a2_}) and bool(alts & {b_, b2_})     # which branch when: checked on _timeout_ms itself
-    if not (t[0] == "call" and t[1] == "builtins.int" and len(t[2]) == 1):
+    def intmul(x, v):
+        return x[0] == "call" and x[1] == "builtins.int" and len(x[2]) == 1 and not x[3] and x[2][0][0] == "op" and x[2][0][1] == "*" and sorted(x[2][0][2:], key=repr) == sorted([v, ("c", 1000)], key=repr)
+    # int(a if c else b)  ==  int(a) if c else int(b)
+    if t[0] == "call" and t[1] == "builtins.int" and len(t[2]) == 1 and t[2][0][0] == "ite":
+        x = t[2][0]
+        t = ("ite", x[1], ("call", "builtins.int", (x[2],), ()), ("call", "builtins.int", (x[3],), ()))
+    if t[0] != "ite":
         return False
-    x = t[2][0]
-    if x[0] != "ite":
-        return False
-    a = ("op", "*", tparam, ("c", 1000))
-    a2 = ("op", "*", ("c", 1000), tparam)
-    b = ("op", "*", default, ("c", 1000))
-    b2 = ("op", "*", ("c", 1000), default)
-    cond = x[1][1] if x[1][0] == "cond" else None
+    cond = t[1][1] if t[1][0] == "cond" else None
     if cond == ("cmp", tparam, ("c", "IsNot"), ("c", None)):
-        return x[2] in (a, a2) and x[3] in (b, b2)
+        return intmul(t[2], tparam) and intmul(t[3], default)
     if cond == ("cmp", tparam, ("c", "Is"), ("c", None)):
-        return x[3] in (a, a2) and x[2] in (b, b2)
+        return intmul(t[3], tparam) and intmul(t[2], default)
     return False
 
 
